@@ -119,18 +119,18 @@ fn c07_header_mapping() {
     core::mem::forget((r, r2));
 }
 
-/// Collection time: for every in-range date and time of day both conversions report the header's
-/// date-time in epoch milliseconds (other header fields concrete).
-#[kani::proof]
-#[kani::stub(alloc::fmt::format, crate::stubs::fmt_format)]
-fn c07_collection_time() {
+/// Collection time = the header's date-time in epoch milliseconds.  Two lemmas (a query with
+/// date AND time symbolic through timestamp_millis() does not finish: > 25 min): every date at
+/// midnight, and every time of day on a fixed date.  (That date_time() itself is the exact instant for
+/// every (date, time) pair is C08's c08_drd_header_exact.)
+fn collection_time(date: u16, time: u32) {
     let mut h = any_header();
     h.azimuth_angle = 10.5;
     h.elevation_angle = 0.5;
     h.azimuth_resolution_spacing = 1;
     h.radial_status = 1;
-    kani::assume(h.date >= 1 && h.time < 86_400_000);
-    let (date, time) = (h.date, h.time);
+    h.date = date;
+    h.time = time;
     let m = msg(h, [None, None, None, None, None, None, None]);
     let want = (date as i64 - 1) * 86_400_000 + time as i64;
     match m.radial() {
@@ -145,7 +145,24 @@ fn c07_collection_time() {
     }
     // into_radial() is tied to radial() by `r == r2` in c07_header_mapping / c07_moment_routing_*
     core::mem::forget(m);
-    wit!(date == 65535 && time == 86_399_999);
+}
+
+#[kani::proof]
+#[kani::stub(alloc::fmt::format, crate::stubs::fmt_format)]
+fn c07_collection_time_dates() {
+    let date: u16 = kani::any();
+    kani::assume(date >= 1);
+    collection_time(date, 0);
+    wit!(date == 65535);
+}
+
+#[kani::proof]
+#[kani::stub(alloc::fmt::format, crate::stubs::fmt_format)]
+fn c07_collection_time_times() {
+    let time: u32 = kani::any();
+    kani::assume(time < 86_400_000);
+    collection_time(19_000, time);
+    wit!(time == 86_399_999);
 }
 
 /// Moment routing for a CONCRETE presence pattern (a symbolic subset makes seven heap objects
@@ -289,35 +306,59 @@ fn c07_values_levels_agree() {
     core::mem::forget((dv, mv, md, b));
 }
 
-/// One value per gate, 8-bit words: gates 0..=2.
-#[kani::proof]
-#[kani::unwind(5)]
-#[kani::stub(alloc::fmt::format, crate::stubs::fmt_format)]
-fn c07_gate_count_word8() {
+/// One value per gate (gates 0..=2) at both levels for the given word size; a 16-bit gate is the
+/// big-endian pair of its two bytes.  One harness per word size: a symbolic word size on top of a
+/// symbolic gate count exhausts CBMC (12 GB).
+fn gate_count<const WORD: u8>() {
     let gates: u16 = kani::any();
     kani::assume(gates <= 2);
-    let d: [u8; 2] = kani::any();
-    let b = block(gates, 8, 2.0, 66.0, d[..gates as usize].to_vec());
+    let d: [u8; 4] = kani::any();
+    let n = gates as usize * (WORD as usize / 8);
+    let b = block(gates, WORD, 2.0, 66.0, d[..n].to_vec());
     let dv = b.decoded_values();
     let md = b.moment_data();
     let mv = md.values();
-    assert!(dv.len() == gates as usize && mv.len() == gates as usize, "C07: one value per gate (8-bit)");
+    assert!(dv.len() == gates as usize && mv.len() == gates as usize, "C07: exactly one value per gate");
+    let mut g = 0;
+    while g < gates as usize {
+        let raw: u16 = if WORD == 16 { u16::from_be_bytes([d[2 * g], d[2 * g + 1]]) } else { d[g] as u16 };
+        let want = match raw {
+            0 => MomentValue::BelowThreshold,
+            1 => MomentValue::RangeFolded,
+            _ => MomentValue::Value((raw as f32 - 66.0) / 2.0),
+        };
+        assert!(mv[g] == want, "C07: gate value (word size / byte order)");
+        g += 1;
+    }
     wit!(gates == 2);
+    wit!(gates == 0);
     core::mem::forget((dv, mv, md, b));
 }
 
-/// KNOWN FINDING c07_word16 (recorded in /verif/known_findings.json): a 16-bit moment (e.g. PHI)
-/// yields one value per *byte*, i.e. 2 x gates values.  This harness states the property on
-/// exactly that region and is expected to FAIL while the finding is open.
 #[kani::proof]
 #[kani::unwind(6)]
 #[kani::stub(alloc::fmt::format, crate::stubs::fmt_format)]
-fn c07_known_word16_witness() {
-    let d: [u8; 2] = kani::any();
-    let b = block(1, 16, 2.8361, 2.0, d.to_vec());
-    let dv = b.decoded_values();
-    let md = b.moment_data();
+fn c07_gate_count_word8() {
+    gate_count::<8>();
+}
+
+#[kani::proof]
+#[kani::unwind(6)]
+#[kani::stub(alloc::fmt::format, crate::stubs::fmt_format)]
+fn c07_gate_count_word16() {
+    gate_count::<16>();
+}
+
+/// The consuming conversion keeps the word size too: into_moment_data of a 16-bit block.
+#[kani::proof]
+#[kani::unwind(6)]
+#[kani::stub(alloc::fmt::format, crate::stubs::fmt_format)]
+fn c07_gate_count_word16_consuming() {
+    let d: [u8; 4] = kani::any();
+    let b = block(2, 16, 2.8361, 2.0, d.to_vec());
+    let md = b.into_moment_data();
     let mv = md.values();
-    assert!(dv.len() == 1 && mv.len() == 1, "C07: one value per gate (16-bit words)");
-    core::mem::forget((dv, mv, md, b));
+    assert!(mv.len() == 2, "C07: one value per gate (16-bit words, consuming conversion)");
+    wit!(d[0] == 1 && d[1] == 0);
+    core::mem::forget((mv, md));
 }
